@@ -13,7 +13,7 @@ import aioftp
 
 SCRIPTS = ["login_quit", "login_pw", "login_bad_pw", "walk", "mkd_rmd", "stor_pasv", "stor_epsv_after", "appe", "retr_pasv", "retr_epsv_after",
            "retr_rest", "stor_rest", "retr_missing", "list", "mlsd", "mlsd_dir", "mlst", "rename", "dele", "abor_idle", "misc", "two_transfers",
-           "pasv_twice", "noconnect", "nologin", "stor_unreachable", "relogin", "stor_slow", "pipelined"]
+           "pasv_twice", "noconnect", "nologin", "stor_unreachable", "relogin", "stor_slow", "pipelined", "pipelined_fs", "stor_rest_missing"]
 # not included: abor_mid, retr_huge - their outcome depends on how much the network buffers (400 kB fit into the
 # kernel's loopback buffers but not into the simulated 64 KiB window)
 
